@@ -18,5 +18,5 @@ hit = False
 for p in props:
     for f in r[p]:
         hit = True
-        print('%s %s %s :: %s' % (p, f.get('rule'), f.get('key'), (f.get('message') or '')[:160]))
+        print('%s %s %s :: %s' % (p, f.get('rule'), f.get('key'), (f.get("message") or "")[:int(os.environ.get("MSGLEN", "160"))]))
 print('DETECTED' if hit else 'SILENT', os.path.basename(patch))
